@@ -121,7 +121,8 @@ def gen_table(rng):
     cols = []
     names = rng.sample(["a", "b", "c d", "é", "x|y", "n\nl", "", "1"], ncols)
     for name in names:
-        cells = [rng.choice([None, 1, 2.5, "s", "m\nn", "\n", "ü", float("nan"), True, "a|b", ""]) for _ in range(nrows)]
+        cells = [rng.choice([None, 1, 2.5, "s", "m\nn", "\n", "ü", float("nan"), True, "a|b", "",
+                             0.0, -0.0, 1.0, 0, False, "1", "1.0"]) for _ in range(nrows)]
         if rng.random() < 0.2:
             # numeric column that the harness hands over as a numpy array (float32 / int8 / masked): see np_column()
             cells = [rng.choice([0.1, 1, 2.5, 1e-3, 3]) for _ in range(nrows)]
@@ -198,7 +199,7 @@ def gen_op(rng, known, weights):
         return dict(op="card.add_metrics", section=gen_path(rng, known), description=gen_opt(rng, ["mdesc"]), items=items)
     if kind == "add_hyperparams":
         names = rng.sample(["alpha", "C", "est__n", "fit_intercept", "é"], rng.randint(0, 4))
-        items = [[n, rng.choice([1, 0.1, None, True, "l2", "a\nb"])] for n in names]
+        items = [[n, rng.choice([1, 0.1, None, True, "l2", "a\nb", 0.0, -0.0, 1.0, 0, False, "1"])] for n in names]
         return dict(op="card.add_hyperparams", section=gen_path(rng, known), description=gen_opt(rng, ["hdesc"]), items=items,
                     falsy_model=rng.random() < 0.3)
     if kind == "select":
